@@ -274,6 +274,53 @@ def post_variations(rng, cfg):
             aw = cfg["protocols"][0]["addr_width"]
             e = rng.choice(cands)
             e["addr_range"] = {"base": rng.choice([0, 0x100, (1 << (aw - 1))]), "size": rng.choice([0x40, 0x1000])}
+    if rng.random() < 0.06:
+        # a protocol nobody uses, declared ahead of the others
+        first = dict(cfg["protocols"][0])
+        first["name"] = "spare_" + first["name"]
+        first["id_width"] = 7
+        cfg["protocols"].insert(0, first)
+    if rng.random() < 0.05:
+        # a second manager-side protocol, used by one endpoint only
+        mgrs = [e for e in cfg["endpoints"] if e.get("mgr_port_protocol")]
+        if len(mgrs) >= 2:
+            e = rng.choice(mgrs[1:])
+            new = []
+            for pn in e["mgr_port_protocol"]:
+                src = next(p for p in cfg["protocols"] if p["name"] == pn)
+                alt = dict(src)
+                alt["name"] = rng.choice(["alt_" + pn, pn.split("_")[-1] if "_" in pn else "x" + pn])
+                if rng.random() < 0.3:
+                    alt["id_width"] = src["id_width"] + 2          # refused: one ID width per direction
+                if all(p["name"] != alt["name"] for p in cfg["protocols"]):
+                    cfg["protocols"].append(alt)
+                    new.append(alt["name"])
+                else:
+                    new.append(pn)
+            e["mgr_port_protocol"] = new
+    if rng.random() < 0.03 and len(cfg["endpoints"]) > 2:
+        # an unpopulated slot: an endpoint without any port
+        cands = [e for e in cfg["endpoints"] if "array" not in e]
+        if cands:
+            e = rng.choice(cands)
+            e.pop("mgr_port_protocol", None)
+            e.pop("sbr_port_protocol", None)
+            e.pop("addr_range", None)
+    if rng.random() < 0.05:
+        # a direction written on the endpoint's end of a connection as well (only the router's end counts)
+        rts = {r["name"] for r in cfg["routers"]}
+        for c in cfg["connections"]:
+            if c["dst"] in rts and c["src"] not in rts and "dst_dir" in c and "src_dir" not in c:
+                c["src_dir"] = rng.choice(["East", "North", "South", "West"])
+                break
+            if c["src"] in rts and c["dst"] not in rts and "src_dir" in c and "dst_dir" not in c:
+                c["dst_dir"] = rng.choice(["East", "North", "South", "West"])
+                break
+    if rng.random() < 0.04 and cfg["routing"]["route_algo"] != "XY":
+        # a plain number where a coordinate offset is expected is dropped without a word
+        rng.choice(cfg["endpoints"])["xy_id_offset"] = rng.randint(1, 3)
+    if rng.random() < 0.04:
+        cfg["routing"]["port_id_bits"] = rng.choice([0, 2])
     if SHORT_DEGREE and rng.random() < 0.05:
         # a router with fewer ports than its links need: floogen refuses to build it
         cands = [r for r in cfg["routers"] if "degree" in r]
@@ -704,6 +751,19 @@ def gen_chain_xbar(rng, algo, nettype, m=5, k=8):
         eps.append(mk_endpoint(rng, nettype, alloc, f"p{j}", force_role="dual"))
         conns.append({"src": f"p{j}", "dst": "xbar"})
     return finish(rng, cfg, eps, [{"name": f"c{j}"} for j in range(m)] + [{"name": "xbar"}], conns, shuffle=False)
+
+
+def gen_name_prefix_routers(rng, algo, nettype):
+    """three single routers in a triangle; one name is contained in another (sw, sw2), the longer one first"""
+    aw = 48
+    cfg = base_cfg(rng, "tri", nettype, algo, aw)
+    alloc = AddrAlloc(rng, aw)
+    eps, conns = [], []
+    for e, r in [("cpu", "sw2"), ("mem", "sw"), ("io", "edge")]:
+        eps.append(mk_endpoint(rng, nettype, alloc, e, force_role="dual"))
+        conns.append({"src": e, "dst": r})
+    conns += [{"src": "edge", "dst": "sw2"}, {"src": "edge", "dst": "sw"}, {"src": "sw2", "dst": "sw"}]
+    return finish(rng, cfg, eps, [{"name": "sw2"}, {"name": "sw"}, {"name": "edge"}], conns, shuffle=False)
 
 
 def gen_deep_tree(rng, algo, nettype, tree):
